@@ -254,7 +254,12 @@ func runC15(c *CaseCtx) (res CaseResult) {
 	w.FailOn = func(fi, exec int, specFail bool) bool {
 		return (fi == 0 || fi == 1) && failMask&(1<<uint(curCall%6)) != 0
 	}
-	b, err := w.Build(0, spec, r)
+	var bopts []am.Arg
+	if r.Intn(2) == 0 {
+		// BuildFunc(in, out, cb, opts...): a default option of its own
+		bopts = append(bopts, am.FuncName("built-under-test"))
+	}
+	b, err := w.Build(0, spec, r, bopts...)
 	if err != nil {
 		res.violate("C15", "buildfunc-rejected", "BuildFunc rejected well-formed value sets: "+err.Error(), det)
 		return res
@@ -314,6 +319,34 @@ func runC15(c *CaseCtx) (res CaseResult) {
 				}
 			}
 			return m
+		}
+		// (0) from the second round on: a call that lacks one input whose
+		// type no other input shares — the callback must not run, whatever
+		// earlier calls injected
+		if k > 0 && len(in) > 0 {
+			drop := r.Intn(len(in))
+			unique := !isIface(in[drop].Type)
+			for i, l := range in {
+				if i != drop && (l.Type == in[drop].Type || isIface(l.Type)) {
+					unique = false
+				}
+			}
+			if unique {
+				args0, sid0 := supply(3*k + 1000)
+				var part []am.Arg
+				for i, a := range args0 {
+					if o := w.Origin(sid0[i]); o != nil && o.Func != drop {
+						part = append(part, a)
+					}
+				}
+				o0 := DoCall(w, b.Func, part)
+				res.Evals++
+				if o0.Class == ClsOK || len(o0.Events) > 0 {
+					res.violate("C15", "callback-ran-without-an-input", fmt.Sprintf("the built function was called without a value for %v: class %s, %d callback executions (values of earlier calls must not be reused)", in[drop], o0.Class, len(o0.Events)),
+						map[string]interface{}{"built": spec.String(), "call": k, "events": eventsStr(o0.Events)})
+				}
+				res.obs("incomplete_calls_of_the_built_function", 1)
+			}
 		}
 		// (1) direct call of the built function
 		args, sid := supply(3 * k)
